@@ -64,13 +64,13 @@ func (r *vSlotRun) ev(e, k string, n, m int, err string) {
 }
 
 type vSlotConn struct {
-	name    string
-	c       *connection
-	peer    int
+	name     string
+	c        *connection
+	peer     int
 	peerOpen bool
-	got     int // bytes received through the handler
-	sent    int
-	closed  bool
+	got      int // bytes received through the handler
+	sent     int
+	closed   bool
 }
 
 func (r *vSlotRun) newConn(name string, streamSeed int) (*vSlotConn, error) {
